@@ -113,7 +113,7 @@ impl Exec {
         let plan = self.plan.clone();
         let r = catch_unwind(AssertUnwindSafe(|| -> Box<dyn Root> {
             match &plan.shape {
-                Shape::Flat { fam, cont, n, plain } => {
+                Shape::Flat { fam, cont, n, plain, unit } => {
                     let kids: Vec<NodeId> = with(|w| {
                         let root = w.new_node(NO_NODE, *fam);
                         debug_assert_eq!(root, ROOT);
@@ -140,7 +140,10 @@ impl Exec {
                             }
                         });
                     }
-                    crate::roots::build_flat(*fam, *cont, &kids, *plain)
+                    if *unit {
+                        with(|w| w.model.unit_items = true);
+                    }
+                    crate::roots::build_flat(*fam, *cont, &kids, *plain, *unit)
                 }
                 Shape::Nested { kind } => crate::nested::build(*kind, &plan),
                 Shape::Dyn { tree } => crate::dynnest::build(tree, &plan),
